@@ -304,7 +304,7 @@ func TestVF_C01(t *testing.T) {
 			cfg := vfDrawCfg(c.R, vfWinEnv)
 			maxSize := 1 << 20
 			maxFiles := 8
-			if vfThorough() && c.R.Intn(12) == 0 {
+			if vfThorough() && c.R.Intn(40) == 0 {
 				maxSize = 24 << 20
 			}
 			if cfg.Seg == "one" || (cfg.Seg == "fixed" || cfg.Seg == "rand") && cfg.SegK < 100 || cfg.Win {
